@@ -22,6 +22,7 @@ REQUIRED_THEOREMS = [
     'Properties.C08.multiscale_routing_bijective', 'Properties.C08.multiscale_prefix',
     'Properties.C08.multiscale_inv_fwd', 'Properties.C08.multiscale_fwd_inv',
     'Properties.C08.build_accepts_iff', 'Properties.C08.driver_uses_combinators',
+    'Properties.C08.chunk_emits_first_half', 'Properties.C08.multiscale_forward_index_1d', 'Properties.C08.multiscale_forward_index', 'Properties.C08.multiscale_forward_pointwise_index', 'Properties.C08.multiscale_forward_identity_any_accumulator', 'Properties.C08.built_objects_have_positive_split_dim', 'Properties.C08.addTransform_errors_reachable', 'Properties.C08.call_errors_reachable',
 ]
 RULE = ("three streams from one PRNG. (1) nest: random shape-correct nestings, wrapper depth 0-5 (budget 1-4 plus the inverted multiscale), of CompositeTransform / "
         "InverseTransform / MultiscaleCompositeTransform (also multiscale inside composite inside inverse inside multiscale) "
